@@ -4,6 +4,7 @@ import (
 	"context"
 	"errors"
 	"fmt"
+	"sync"
 	"testing"
 	"time"
 
@@ -33,93 +34,160 @@ func coqEv(e ev) string {
 	return fmt.Sprintf("(mkEv %s %s %s %s %s)", e.Who, vh.Bool(e.Flag), kind, vh.Bool(e.CEntry), vh.Bool(e.CExit))
 }
 
+var causes = []string{"ByCancel", "ByDeadline", "ByTtl"}
+
+type result struct {
+	term  string
+	desc  map[string]any
+	res   string
+	nev   int
+	nontr bool
+	pcr   bool
+}
+
+// one executes a single case against the real utils.Txn / utils.PCR.
+//
+//	ByCancel:   the caller cancels its context at the chosen point;
+//	ByDeadline: the caller's context carries a deadline that passes at the chosen point
+//	            (the step there sleeps until it has passed);
+//	ByTtl:      the step at the chosen point outlives the transaction's own ttl.
+func one(isPCR bool, cnd, thn, rb, cp, cause string) result {
+	errCond, errThen, errRb := errors.New("cond"), errors.New("then"), errors.New("rb")
+	base := context.WithValue(context.Background(), probeKey{}, 1)
+	ttl := 30 * time.Second
+	var parent context.Context
+	var cancel context.CancelFunc
+	var deadline time.Time
+	switch cause {
+	case "ByDeadline":
+		deadline = time.Now().Add(2 * time.Second)
+		if cp == "Before" {
+			deadline = time.Now().Add(-time.Millisecond)
+		}
+		if cp == "Never" {
+			deadline = time.Now().Add(10 * time.Minute)
+		}
+		parent, cancel = context.WithDeadline(base, deadline)
+	case "ByTtl":
+		ttl = 1500 * time.Millisecond
+		parent, cancel = context.WithCancel(base)
+	default:
+		parent, cancel = context.WithCancel(base)
+	}
+	defer cancel()
+	var evs []ev
+	step := func(who string, outcome string, e error, cancelAt string) func(context.Context, bool) error {
+		return func(ctx context.Context, flag bool) error {
+			x := ev{Who: who, Flag: flag, Derived: ctx.Value(probeKey{}) != nil, CEntry: ctx.Err() != nil}
+			if cp == cancelAt {
+				switch cause {
+				case "ByCancel":
+					cancel()
+				case "ByDeadline":
+					time.Sleep(time.Until(deadline) + 30*time.Millisecond)
+				case "ByTtl":
+					time.Sleep(ttl + 100*time.Millisecond)
+				}
+			}
+			x.CExit = ctx.Err() != nil
+			evs = append(evs, x)
+			if outcome == "Failr" {
+				return e
+			}
+			return nil
+		}
+	}
+	if cp == "Before" && cause == "ByCancel" {
+		cancel()
+	}
+	fc := step("SCond", cnd, errCond, "InCond")
+	ft := step("SThen", thn, errThen, "InThen")
+	fr := step("SRollback", rb, errRb, "InRollback")
+	var err error
+	if isPCR {
+		err = utils.PCR(parent,
+			func(ctx context.Context) error { return fc(ctx, false) },
+			func(ctx context.Context) error { return ft(ctx, false) },
+			func(ctx context.Context) error { return fr(ctx, false) }, ttl)
+	} else {
+		var then func(context.Context) error
+		var rollback func(context.Context, bool) error
+		if thn != "Absent" {
+			then = func(ctx context.Context) error { return ft(ctx, false) }
+		}
+		if rb != "Absent" {
+			rollback = fr
+		}
+		err = utils.Txn(parent, func(ctx context.Context) error { return fc(ctx, false) }, then, rollback, ttl)
+	}
+	res := "ROther"
+	switch {
+	case err == nil:
+		res = "RNil"
+	case errors.Is(err, errCond):
+		res = "RCondErr"
+	case errors.Is(err, errThen):
+		res = "RThenErr"
+	}
+	coqEvs := make([]string, len(evs))
+	for i, e := range evs {
+		coqEvs[i] = coqEv(e)
+	}
+	shown := res
+	if res == "ROther" {
+		// not representable in the model: force a mismatch and a violation
+		res = "RNil"
+		coqEvs = nil
+	}
+	term := fmt.Sprintf("(mkCase %s %s %s %s %s %s %s %s)", vh.Bool(isPCR), cnd, thn, rb, cp, cause, vh.List(coqEvs), res)
+	desc := map[string]any{"pcr": isPCR, "cond": cnd, "then": thn, "rollback": rb, "cancel_point": cp, "cause": cause, "events": evs, "result": shown}
+	return result{term: term, desc: desc, res: shown, nev: len(evs), nontr: cnd == "Failr" || thn == "Failr", pcr: isPCR}
+}
+
 func TestC17(t *testing.T) {
 	r := vh.New(t, "C17", "txn")
 	r.Coq("From Verif Require Import Utils.Txn.", "Txn.case", "Txn.agree", "Txn.ok")
-	errCond, errThen, errRb := errors.New("cond"), errors.New("then"), errors.New("rb")
-
-	run := func(isPCR bool, cnd, thn, rb, cp string) {
-		parent, cancel := context.WithCancel(context.WithValue(context.Background(), probeKey{}, 1))
-		defer cancel()
-		var evs []ev
-		step := func(who string, outcome string, e error, cancelAt string) func(context.Context, bool) error {
-			return func(ctx context.Context, flag bool) error {
-				x := ev{Who: who, Flag: flag, Derived: ctx.Value(probeKey{}) != nil, CEntry: ctx.Err() != nil}
-				if cp == cancelAt {
-					cancel()
-				}
-				x.CExit = ctx.Err() != nil
-				evs = append(evs, x)
-				if outcome == "Failr" {
-					return e
-				}
-				return nil
-			}
-		}
-		if cp == "Before" {
-			cancel()
-		}
-		fc := step("SCond", cnd, errCond, "InCond")
-		ft := step("SThen", thn, errThen, "InThen")
-		fr := step("SRollback", rb, errRb, "InRollback")
-		var err error
-		if isPCR {
-			err = utils.PCR(parent,
-				func(ctx context.Context) error { return fc(ctx, false) },
-				func(ctx context.Context) error { return ft(ctx, false) },
-				func(ctx context.Context) error { return fr(ctx, false) }, 10*time.Second)
-		} else {
-			var then func(context.Context) error
-			var rollback func(context.Context, bool) error
-			if thn != "Absent" {
-				then = func(ctx context.Context) error { return ft(ctx, false) }
-			}
-			if rb != "Absent" {
-				rollback = fr
-			}
-			err = utils.Txn(parent, func(ctx context.Context) error { return fc(ctx, false) }, then, rollback, 10*time.Second)
-		}
-		res := "ROther"
-		switch {
-		case err == nil:
-			res = "RNil"
-		case errors.Is(err, errCond):
-			res = "RCondErr"
-		case errors.Is(err, errThen):
-			res = "RThenErr"
-		}
-		coqEvs := make([]string, len(evs))
-		for i, e := range evs {
-			coqEvs[i] = coqEv(e)
-		}
-		if res == "ROther" {
-			// not representable in the model: force a mismatch and a violation
-			res = "RNil"
-			coqEvs = nil
-		}
-		term := fmt.Sprintf("(mkCase %s %s %s %s %s %s %s)", vh.Bool(isPCR), cnd, thn, rb, cp, vh.List(coqEvs), res)
-		desc := map[string]any{"pcr": isPCR, "cond": cnd, "then": thn, "rollback": rb, "cancel": cp, "events": evs, "result": res}
-		r.Count("result=" + res)
-		r.Count(fmt.Sprintf("events=%d", len(evs)))
-		r.Add(term, desc, map[string]any{"pcr": isPCR}, cnd == "Failr" || thn == "Failr")
+	type job struct {
+		pcr                     bool
+		cnd, thn, rb, cp, cause string
 	}
-	for _, cnd := range outcomes[1:] {
-		for _, thn := range outcomes {
-			for _, rb := range outcomes {
-				for _, cp := range cpoints {
-					run(false, cnd, thn, rb, cp)
+	var jobs []job
+	for _, cause := range causes {
+		for _, cp := range cpoints {
+			if cause == "ByTtl" && (cp == "Before" || cp == "Never") {
+				continue // the ttl cannot be used up before the call; Never is covered by ByCancel
+			}
+			for _, cnd := range outcomes[1:] {
+				for _, thn := range outcomes {
+					for _, rb := range outcomes {
+						jobs = append(jobs, job{false, cnd, thn, rb, cp, cause})
+					}
+				}
+			}
+			for _, p := range outcomes[1:] {
+				for _, c := range outcomes[1:] {
+					for _, rb := range outcomes[1:] {
+						jobs = append(jobs, job{true, p, c, rb, cp, cause})
+					}
 				}
 			}
 		}
 	}
-	for _, p := range outcomes[1:] {
-		for _, c := range outcomes[1:] {
-			for _, rb := range outcomes[1:] {
-				for _, cp := range cpoints {
-					run(true, p, c, rb, cp)
-				}
-			}
-		}
+	results := make([]result, len(jobs))
+	var wg sync.WaitGroup
+	for i, j := range jobs {
+		wg.Add(1)
+		go func(i int, j job) {
+			defer wg.Done()
+			results[i] = one(j.pcr, j.cnd, j.thn, j.rb, j.cp, j.cause)
+		}(i, j)
 	}
-	r.Finish("exhaustive: every outcome vector (cond ok/fail x then absent/ok/fail x rollback absent/ok/fail, and PCR prepare/commit/rollback ok/fail) x 5 caller-cancellation points; non-trivial = some step fails")
+	wg.Wait()
+	for i, x := range results {
+		r.Count("result=" + x.res)
+		r.Count(fmt.Sprintf("events=%d", x.nev))
+		r.Count("cause=" + jobs[i].cause)
+		r.Add(x.term, x.desc, map[string]any{"pcr": x.pcr, "cause": jobs[i].cause}, x.nontr)
+	}
+	r.Finish("exhaustive: every outcome vector (cond ok/fail x then absent/ok/fail x rollback absent/ok/fail, and PCR prepare/commit/rollback ok/fail) x 5 points at which the caller's context ends x 3 ways it ends (explicit cancel, caller deadline passing, transaction ttl used up by the step); non-trivial = some step fails")
 }
